@@ -55,6 +55,10 @@ EXPLANATION += (
     ' Round 6: cached readers are keyed by all they were built from (R-MEMO/key-complete); no HDF5 name is created twice in a group (R-TYPESTATE/h5-name-once, finding F8).'
 )
 
+EXPLANATION += (
+    ' Round 7: a slice store in a loop whose source changes moves with the loop (R-CURSOR/store-advances).'
+)
+
 RULE_TEXT = (
     "one obligation per step / chunk-extent site, per range relation of "
     "the dispatch loop, per piece-list mutation, per dispatcher x member")
